@@ -174,7 +174,10 @@ def main(tier, seed):
             traces.append(t)
             chk.case(("shrink", nq, nr, w, tuple(t["faults"].items())), nontrivial=True)
     # (iii) beyond 256 segments (sequence numbers wrap), fault-free and with single faults around the wrap
-    longs = [(1, 258, 8), (259, 1, 4)] + ([(1, 600, 127), (300, 300, 16)] if thorough else [])
+    # (segment counts chosen so that sequence numbers of earlier windows collide with that of the last segment: N-1-256j a
+    # multiple of the window for some j >= 1)
+    longs = [(1, 258, 8), (259, 1, 4), (1, 257, 3), (257, 1, 2)] + (
+        [(1, 600, 127), (300, 300, 16), (1, 260, 3), (1, 301, 4), (1, 513, 2), (513, 1, 1), (1, 515, 3), (261, 1, 4)] if thorough else [])
     for nq, nr, w in longs:
         rc = tsmlib.rig_cfg(seg=50, nq=nq, nr=nr, pwc=w, pws=w, tapdu=60000, maxsegs=None)
         t = tsmlib.record(rc, limit=20000)
